@@ -282,9 +282,42 @@ def off_in_list_oracle(case: dict):
     return None
 
 
+def nested_include_oracle(case: dict):
+    """every #include directive of the written output names one of the files the source includes (resolved against the
+    folder of the file that was read): the root includes a file in ANOTHER folder that has an include of its own"""
+    dictIO = native.dictio()
+    tmp = native.scratch_dir("c12n_")
+    try:
+        (tmp / "sub").mkdir()
+        (tmp / "root").write_text("#include 'sub/a2'\nx  1;\n")
+        (tmp / "sub" / "a2").write_text("#include 'b2'\ny  2;\n")
+        (tmp / "sub" / "b2").write_text("z  3;\n")
+        if case.get("decoy"):
+            (tmp / "b2").write_text("z  99;\nother  5;\n")
+        try:
+            d = dictIO.DictReader.read(tmp / "root", comments=case.get("comments", True))
+            out = dictIO.NativeFormatter().to_string(d)
+        except Exception as e:  # noqa: BLE001
+            return ("raises", f"read/write raised {type(e).__name__}: {e}")
+        closure = {(tmp / "sub" / "a2").resolve(), (tmp / "sub" / "b2").resolve()}
+        for line in out.splitlines():
+            m = re.match(r"\s*#include\s*(.*?)\s*$", line)
+            if m:
+                name = m.group(1).strip("'\"")
+                tgt = (tmp / name).resolve()
+                if tgt not in closure:
+                    return ("include-target", f"the written directive {line.strip()!r} names {tgt.relative_to(tmp.resolve()) if str(tgt).startswith(str(tmp.resolve())) else tgt} "
+                                              f"(relative to the folder of the file that was read); the source includes sub/a2 and, through it, sub/b2")
+        return None
+    finally:
+        shutil.rmtree(tmp, ignore_errors=True)
+
+
 def oracle(case: dict):
     if case.get("kind") == "off-in-list":
         return off_in_list_oracle(case)
+    if case.get("kind") == "nested-include":
+        return nested_include_oracle(case)
     dictIO = native.dictio()
     text = case["text"]
     tmp = native.scratch_dir("c12_")
@@ -384,7 +417,12 @@ def _slashes_in_block(case, f):
         "block-comments", "line-comments", "output-malformed", "raises", "data", "off-data", "header")
 
 
-KNOWN_PREDICATES = {"C12-line-comment-marker-inside-block-comment": _slashes_in_block}
+def _nested_include_other_folder(case, f):
+    return case.get("kind") == "nested-include" and f["symptom"] == "include-target"
+
+
+KNOWN_PREDICATES = {"C12-line-comment-marker-inside-block-comment": _slashes_in_block,
+                    "C12-nested-include-from-another-folder": _nested_include_other_folder}
 
 
 def mk_case(s: Src) -> dict:
@@ -395,6 +433,15 @@ def mk_case(s: Src) -> dict:
 def run(ctx):
     rng = ctx.rng
     dictIO = native.dictio()
+    # an include from another folder that has an include of its own (recorded finding: the nested directive is re-emitted
+    # with a name relative to the nested file's folder)
+    for decoy in (False, True):
+        for com in (True, False):
+            c = {"kind": "nested-include", "decoy": decoy, "comments": com, "text": "#include 'sub/a2'\nx  1;\n", "block_comments": []}
+            r = oracle(c)
+            if r:
+                ctx.oracle_fail(c, r[0], r[1])
+            ctx.count(("ni", decoy, com), True, "nested-include-other-folder")
     cases = []
     for i in range(ctx.n(500, 12000)):
         s = gen_source(rng, hazardous=(i % 4 != 0))
